@@ -7,6 +7,7 @@ package c18
 
 import (
 	"crypto/tls"
+	"time"
 
 	"github.com/pion/dtls/v2"
 
@@ -82,10 +83,16 @@ func Check_Exporter() {
 		sx.Assert(cfg.MinVersion == 0 || cfg.MinVersion >= tls.VersionTLS12, "MinVersion-below-TLS1.2")
 		sx.Assert(cfg.MaxVersion == 0 || cfg.MaxVersion >= tls.VersionTLS12, "MaxVersion-below-TLS1.2")
 		sx.Assert(cfg.ServerName == serverName, "ServerName-not-passed-through")
+		if cfg.Time != nil {
+			// certificate validity periods are evaluated at the present instant
+			d := cfg.Time().Sub(time.Now())
+			sx.Assert(d > -time.Second && d < time.Second, "certificate-validity-evaluated-at-another-instant-than-now")
+		}
 		if hasCert {
 			sx.Assert(len(cfg.Certificates) == 1 || cfg.GetClientCertificate != nil, "client-certificate-not-presented")
 		}
 		sx.Reach("tls")
+		rotateCA(in, fnTLSDial)
 		return
 	}
 	sx.Assert(nDTLS == 1 && nTLS == 0, "udp-with-tls-must-use-dtls.Dial")
@@ -97,6 +104,29 @@ func Check_Exporter() {
 	sx.Assert(dcfg.ServerName == serverName, "ServerName-not-passed-through")
 	sx.Assert(dcfg.PSK == nil, "psk-instead-of-certificates")
 	sx.Reach("dtls")
+	rotateCA(in, fnDTLSDial)
+}
+
+var caPEM2 = []byte("-----BEGIN CERTIFICATE-----\nthe-CA-configured-later\n-----END CERTIFICATE-----\n")
+
+// rotateCA: the application replaces the CA in the SAME settings object and
+// initialises again: the second session trusts exactly the new CA.
+func rotateCA(in exporter.ExporterInput, dialFn string) {
+	in.TLSClientConfig.CAData = caPEM2
+	ep, err := exporter.InitExportingProcess(in)
+	if err != nil {
+		sx.Assert(ep == nil, "process-returned-with-error")
+		return
+	}
+	sx.Assert(sx.StubCount(dialFn) == 2, "second-session-dial")
+	if dialFn == fnTLSDial {
+		cfg := sx.StubArg(fnTLSDial, 1, 2).(*tls.Config)
+		sx.Assert(cfg != nil && cfg.RootCAs != nil && sx.PoolHas(cfg.RootCAs, caPEM2), "second-session-does-not-trust-exactly-the-CA-configured-now")
+	} else {
+		cfg := sx.StubArg(fnDTLSDial, 1, 2).(*dtls.Config)
+		sx.Assert(cfg != nil && cfg.RootCAs != nil && sx.PoolHas(cfg.RootCAs, caPEM2), "second-session-does-not-trust-exactly-the-CA-configured-now")
+	}
+	sx.Reach("ca-rotated")
 }
 
 // Check_Collector: Start() under every combination of protocol, encryption
